@@ -11,9 +11,10 @@
     TLC returns the exact corrected logit weights of that sample; GenerateModel.get_logit() evaluated
     on the row must give ln(chosen/total) (1e-9).
 (C) spec -> code (deterministic case): the completely sampled instances emitted by TLC with the exact
-    likelihoods (V = ln w, so P is rational; nested logit through an uninterpreted `pow`) are replayed:
-    get_logit / get_nested_logit on the sampled table, BIOGEME's likelihood, and the ordinary
-    loglogit / lognested on the full choice set must all equal the spec's value (1e-9).
+    likelihoods (V = ln w, so P is rational; nested and cross-nested logit through an uninterpreted
+    `pow`) are replayed: get_logit / get_nested_logit / get_cross_nested_logit on the sampled table,
+    BIOGEME's likelihood, and the ordinary loglogit / lognested / logcnl on the full choice set must
+    all equal the spec's value (1e-9).
 (D) inputs: raw contexts (valid and singly mutated) with the reaction of the real code are judged
     by the spec's InputClauses (accepting an input the documentation says is refused = violation).
 """
@@ -57,10 +58,10 @@ def body(chk: check.Check):
     # ------------------------------------------------------------------ (A) the model
     if quick:
         runs = [('lemma', 3, 2, 'any', (2,), False), ('main', 4, 3, 'any', (2,), False), ('main', 5, 3, 'blocks', (2,), False),
-                ('mev', 4, 1, 'blocks', (2,), False), ('full', 4, 3, 'sorted', (2, 5), True), ('full', 5, 2, 'sorted', (2, 5), True)]
+                ('mev', 5, 1, 'blocks', (2,), False), ('full', 4, 3, 'sorted', (2, 5), True), ('full', 5, 2, 'sorted', (2, 5), True)]
     else:
         runs = [('lemma', 4, 2, 'any', (2,), False), ('main', 5, 3, 'any', (2,), False), ('main', 6, 3, 'blocks', (2,), False),
-                ('mev', 5, 1, 'blocks', (2,), False), ('full', 5, 3, 'sorted', (2, 5), True), ('full', 6, 2, 'sorted', (2, 5), True),
+                ('mev', 6, 1, 'blocks', (2,), False), ('full', 5, 3, 'sorted', (2, 5), True), ('full', 6, 2, 'sorted', (2, 5), True),
                 ('full', 7, 1, 'sorted', (2, 5, 3), True)]
 
     def one(r):
@@ -129,7 +130,7 @@ def body(chk: check.Check):
         'the order of the non-chosen alternatives inside a row is free (only "chosen first" is documented); '
         'whether rows are laid out stratum after stratum is recorded as information (trace_statistics.rows_grouped_by_stratum)',
         f'a correction value v is read back as the reduced pair (k, n), n <= {sp.MAXDEN}, with |ln(k/n) - v| <= {sp.CORR_TOL:g}; '
-        'a weight as the pair with float(n/k) == v exactly; TLC compares the pairs with those of the alternative\'s stratum',
+        'a weight as the pair with |n/k - v| <= 1e-12 v; TLC compares the pairs with those of the alternative\'s stratum',
         'utilities V = ln(a) and V = ln(a (x + c)) so that all logit probabilities are rational; math.log / pow (libm) interpret the terms',
         'Partition raising ValueError (documented there) counts as a refusal by the library, like BiogemeError',
     ]
@@ -154,7 +155,7 @@ def small_instances(nmax):
 def record_traces(chk, rng, quick):
     items = []
     smalls = list(small_instances(4 if quick else 5))
-    reps = 3 if quick else 8
+    reps = 2 if quick else 8
     for k, inst in enumerate(smalls):
         for r in range(reps):
             items.append((inst, chk.seed + 7919 * r + k, 'small', sp.VARIANTS[(k + r) % 4] if r == reps - 1 else 'plain'))
@@ -169,7 +170,7 @@ def record_traces(chk, rng, quick):
                         inst = sp.make_instance(alts, [(ids, rng.randint(1, n))], list(zip(part, ks)))
                         for r in range(2 if quick else 4):
                             items.append((inst, chk.seed + 104729 * r + len(items), 'small-mev', 'plain'))
-    nrand = 400 if quick else 3000
+    nrand = 300 if quick else 3000
     for k in range(nrand):
         big = (not quick) and k % 5 == 0
         inst = sp.random_instance(rng, 2 if not big else 9, 8 if not big else 16, maxstrata=3 if quick else 5)
@@ -201,7 +202,7 @@ def judge_traces(chk, recorded):
         meta.append((inst, seed, family, val))
         if val['note']:
             chk.violation('trace:recycled-differs', dict(instance=inst, seed=seed), match=dict(clause='recycled-differs'))
-    verdicts, results = sp.validate(groups, parts=16)
+    verdicts, results = sp.validate(groups, parts=8 if len(groups) < 2000 else 16)
     for k, r in enumerate(results):
         chk.add_tlc(f'SamplingTrace file {k + 1}/{len(results)}', r)
     stats = dict(contexts=len(meta), contexts_by_variant={v: sum(1 for m in meta if m[3]['variant'] == v) for v in sp.VARIANTS}, rows=0, rows_with_second_sample=0, positions=0, rows_grouped_by_stratum=0,
